@@ -109,6 +109,22 @@ def cases_C17(rng, tier):
     for ty in ("RegP:Algorithm", "Reg:KeyType"):
         for t in TEXT_LABELS:
             out.append(case("dec", ty, enc(T(t)), fam="text:" + ty, expect_re=r"ok \[i0x2,t[0-9a-f]*\]"))
+    # every label-typed position x every integer of a window covering all assigned values of the small registries
+    # (the proved model decides; registered -> name, private -> kept, else rejected; 0 and negatives included)
+    positions = (("alg", "Header", lambda x: head(5, 1) + b"\x01" + x), ("content-format", "Header", lambda x: head(5, 1) + b"\x03" + x),
+                 ("crit", "Header", lambda x: head(5, 1) + b"\x02\x81" + x), ("crit2", "Header", lambda x: head(5, 1) + b"\x02\x82\x01" + x),
+                 ("protected-alg", "CoseSign1", lambda x: b"\x84" + enc(B(head(5, 1) + b"\x01" + x)) + b"\xa0\xf6\x40"),
+                 ("protected-ct", "CoseMac0", lambda x: b"\x84" + enc(B(head(5, 1) + b"\x03" + x)) + b"\xa0\xf6\x40"),
+                 ("kty", "CoseKey", lambda x: head(5, 1) + b"\x01" + x), ("key-op", "CoseKey", lambda x: head(5, 2) + b"\x01\x01\x04\x81" + x),
+                 ("key-alg", "CoseKey", lambda x: head(5, 2) + b"\x01\x01\x03" + x), ("claim-name", "ClaimsSet", lambda x: head(5, 1) + x + b"\x00"),
+                 ("kdf-alg", "CoseKdfContext", lambda x: b"\x84" + x + b"\x83\xf6\xf6\xf6\x83\xf6\xf6\xf6\x82\x00\x40"))
+    pwin = list(range(-300, 300)) + [-65535, -65536, -65537, 10000, 11060, 11542, 11543, 65535]
+    if tier != "quick": pwin = sorted(set(pwin) | set(range(-1000, 12000)))
+    for name, ty, wrap in positions:
+        for v in pwin:
+            out.append(case("dec", ty, wrap(enc(I(v))), fam="position:" + name))
+        for t in ("", "a", "alg"):
+            out.append(case("dec", ty, wrap(enc(T(t))), fam="position-text:" + name))
     return out
 
 # ================================================================= C15
@@ -373,7 +389,9 @@ def product_prots():
     """protected-header classes for full products with entry points: built (empty, each single field, a multi-field
     one) and decoded (retained bytes: empty, a0, indefinite empty, non-canonical map)"""
     multi = d_header(alg=d_reg(1, -7), crit=[d_reg(1, 4)], kid=b"k", rest=[(I(99), I(1)), (T("x"), NULL)])
-    out = single_field_prots() + [(d_protected(None, multi), pyspec.protected_bytes(d_protected(None, multi)))]
+    both = d_header(iv=b"\x01\x02\x03", piv=b"\x04")       # only a struct literal can hold both IVs; it is encoded as it stands
+    both2 = d_header(alg=d_reg(1, 1), iv=b"i", piv=b"p", rest=[(I(99), I(1))])
+    out = single_field_prots() + [(d_protected(None, h), pyspec.protected_bytes(d_protected(None, h))) for h in (multi, both, both2)]
     for pb in (b"", b"\xa0", b"\xbf\xff", b"\xbf\x18\x01\x38\x06\xff", b"\xa2\x04\x41\x6b\x01\x26"):
         out.append((d_protected(pb, D_EMPTY_HEADER), pb))
     return out
